@@ -57,8 +57,20 @@ CATALOG = {
     "C12": {
         "drivers": [("dtype", {"quick": 500, "thorough": 20000}, {})],
     },
+    "C15": {
+        "drivers": [("optsweep", {"quick": 500, "thorough": 20000}, {})],
+    },
+    "C16": {
+        "drivers": [("text", {"quick": 400, "thorough": 15000}, {})],
+    },
+    "C20": {
+        "drivers": [("keys", {"quick": 400, "thorough": 20000}, {})],
+    },
     "C17": {
         "drivers": [("frame", {"quick": 400, "thorough": 15000}, {})],
+    },
+    "C13": {
+        "drivers": [("roundtrip", {"quick": 300, "thorough": 15000}, {})],
     },
     "C14": {
         "drivers": [("options", {"quick": 400, "thorough": 20000}, {})],
